@@ -654,8 +654,8 @@ tx_outs:\n{tx_outs}
         """Signs the input assuming that the previous output is a p2pkh using the private key"""
         # get the sig using get_sig_segwit
         sig = self.get_sig_segwit(input_index, private_key)
-        # calculate the sec
-        sec = private_key.point.sec(compressed=private_key.compressed)
+        # calculate the sec: witness program keys are always compressed
+        sec = private_key.point.sec(compressed=True)
         # finalize the input using finalize_p2wpkh
         self.tx_ins[input_index].finalize_p2wpkh(sig, sec)
         # return whether sig is valid using self.verify_input
@@ -667,8 +667,8 @@ tx_outs:\n{tx_outs}
         redeem_script = private_key.point.p2sh_p2wpkh_redeem_script()
         # get the sig using get_sig_segwit
         sig = self.get_sig_segwit(input_index, private_key, redeem_script=redeem_script)
-        # calculate the sec
-        sec = private_key.point.sec(compressed=private_key.compressed)
+        # calculate the sec: witness program keys are always compressed
+        sec = private_key.point.sec(compressed=True)
         # finalize the input using finalize_p2wpkh
         self.tx_ins[input_index].finalize_p2wpkh(sig, sec, redeem_script)
         # return whether sig is valid using self.verify_input
